@@ -8,6 +8,9 @@ CHECKS = [
  {"property_id": "C06",
   "text": "Model of Project._find_job_ids / _SearchIndexer (prefixing, namespace decision, flattening, typed index with Python dict-slot semantics, operator loop, int/float dual lookup, set algebra with early exit) and an independent per-job reference evaluator. Theorems (closed under the global context): the logical structure ($and/$or/$not, early exit) is exact for any per-expression oracle; operator and $exists expressions are exact under NoSlotMerge; implicit equality is exact under NoSlotMerge + probe condition (_partial); locality; $not/$and/$or are complement/intersection/union; the full statement is refuted with machine-checked witnesses (True/1, -1/-1.0) that are a listed known finding. The correspondence runs real projects through Project.find_jobs and evaluates model, reference oracle and known-finding classifier inside Coq.",
   "note": "re.search is an oracle table; math.isclose is PrimFloat arithmetic after CPython; CPython numeric hash assumed as documented for |int|<2^53; transitivity of Python == on nested values is not proved (hence the probe side condition); the lemma that filters without doc-namespace keys never read documents is not proved (top-level theorem is _partial)."},
+ {"property_id": "C18",
+  "text": "Model of detect_schema (_build_job_statepoint_index over the typed index of C06, constant elimination, placeholder removal) and diff_jobs, plus reference summaries computed directly from the state points. Theorems (closed): reported keys are exactly the dotted leaf keys (no side condition); reported values are exactly the jobs' non-mapping values under NoSlotMerge (_partial), refuted without it by machine-checked witnesses True/1 and -1/-1.0 (listed known finding); exclude_const drops a key iff all jobs have it with one value (_partial, NoSlotMerge+reflexivity); diffs partition each job's pairs into diff and shared-by-all. Correspondence on real projects incl. subsets, exclude_const and diff_jobs over mixed-type universes, with the oracle schema_exact/diff_exact evaluated in Coq.",
+  "note": "CPython dict-slot identity as modelled in PyVal.v; subset iteration order replayed by the harness; round trip flatten/nest of diffs is checked by the correspondence, not proved."},
 ]
 
 _claimed = {c["property_id"] for c in CHECKS}
